@@ -52,7 +52,21 @@ func msgOf(tok string) proto.Message {
 		}
 		return b
 	}
+	if tok == emptyTok {
+		return wrapperspb.String("") // the empty message
+	}
 	return wrapperspb.String(tok)
+}
+
+// emptyTok stands for the EMPTY one-field message (what `created := msg.ProtoReflect().New()` is equal
+// to); the empty two-field message is `__`.
+const emptyTok = "e"
+
+func emptyOf(tok string) string {
+	if len(tok) == 2 {
+		return "__"
+	}
+	return emptyTok
 }
 
 func fieldTok(s string) string {
@@ -78,6 +92,9 @@ func tokOf(m proto.Message) string {
 	}
 	if sv == nil {
 		return "typed-nil"
+	}
+	if sv.Value == "" {
+		return emptyTok
 	}
 	return sv.Value
 }
